@@ -111,7 +111,7 @@ PROPS = {
     },
     "C02": {"module": "StrettoModel.Props.C02", "jobs": [cache_job(r"\.(store|ret|callbacks|buffer|clear)$", extra=["--collisions", "1", "--w-clear", "5"])],
             "branches": ["get.hit", "get.miss", "get.conflict_miss", "getmut.hit", "insert.update", "insert.new_over_resident", "remove.resident", "p.clear.buf1", "delete.other_conflict"],
-            "oracles": [{"name": "live-remove-full", "run": live_oracle("C02", ["remove_full", "async_remove_full"])}],
+            "oracles": [{"name": "live-remove-full", "run": live_oracle("C02", ["remove_full", "async_remove_full", "invariants", "async_invariants"])}],
             "assumptions": CACHE_ASSUME + ["values are opaque ids: the model carries a value id where the code carries a V; that the code hands back the V it stored under that id (no aliasing inside a shard's HashMap) is std's contract and is sampled by the correspondence (every returned value is compared)",
                                            "concurrent lookups during an in-place update are serialised by the shard lock; that atomicity (never a mixture of two values) is the RwLock's contract, not a theorem here"]},
     "C04": {"module": "StrettoModel.Props.C04", "jobs": [cache_job(r"\.(store|expiry|policy|ret|callbacks|buffer|len)$", extra=["--w-ttl", "50"])],
@@ -123,12 +123,13 @@ PROPS = {
                      cache_job(r"\.(store|policy|callbacks|len|buffer)$", name="cache-plain", quick_lives=14)],
             "branches": ["padd.evicting", "padd.rejected", "padd.already_charged", "delete.resident", "delete.other_conflict", "delete.absent",
                          "tick.reclaimed", "p.clear.buf1", "remove.resident", "remove.buffer_full", "insert.split"],
-            "oracles": [{"name": "live-remove-full", "run": live_oracle("C06", ["remove_full", "async_remove_full"])}],
+            "oracles": [{"name": "live-remove-full", "run": live_oracle("C06", ["remove_full", "async_remove_full", "invariants", "async_invariants"])}],
             "assumptions": CACHE_ASSUME + ["guards of the theorem checked at run time on the implementation's observations: VictimsOk (no sampled victim is the incoming key) and TickOk (conflict hashes filed in due buckets pass the store's check)"]},
     "C08": {"module": "StrettoModel.Props.C08",
             "jobs": [cache_job(r"\.(store|callbacks|buffer|ret)$", extra=["--collisions", "1"]), cache_job(r"\.(store|callbacks|buffer|ret)$", name="cache-plain", extra=["--w-clear", "5"])],
             "branches": ["insert.update", "insert.new", "insert.new_over_resident", "remove.resident", "delete.resident", "padd.evicting", "padd.rejected", "padd.already_charged",
                          "tick.reclaimed", "p.clear.buf1", "p.stop", "getmut.hit"],
+            "oracles": [{"name": "live-invariants", "run": live_oracle("C08", ["invariants", "async_invariants"])}],
             "assumptions": CACHE_ASSUME + ["values are opaque ids; each write hands the cache a value id that occurs nowhere in it (a Rust value is moved in: a distinct object) — hypothesis `Fresh` of the run theorems; the harness numbers its values consecutively",
                                            "the run theorems assume C06's guards on oracle inputs (VictimsOk, TickOk), checked at run time by the driver on the implementation's observations",
                                            "the callback log of the model is the sequence of CacheCallback calls the recording callback of the harness saw; it is compared step by step"]},
@@ -139,13 +140,14 @@ PROPS = {
             "assumptions": CACHE_ASSUME + ["what the policy worker does with a kept batch is TinyLFU.increments, the subject of C13; the stepped harness parks the worker so the bounded queue does fill up"]},
     "C19": {"module": "StrettoModel.Props.C19", "jobs": [cache_job(r".*", quick_lives=8)],
             "oracles": [{"name": "flavour-differential", "run": flavour_oracle},
-                        {"name": "live-async", "run": live_oracle("C19", ["async_barrier", "async_remove_full"])}],
+                        {"name": "live-async", "run": live_oracle("C19", ["async_barrier", "async_remove_full", "async_invariants"])}],
             "assumptions": CACHE_ASSUME + ["AsyncCache is tied to the model only through Cache: the same scripted histories (quiescence after every operation, virtual clock, equal sketch seeds) are run against both and every observable compared; executors sampled: thread-per-task, tokio multi-thread, tokio current-thread",
                                            "the gets_kept / gets_dropped split and the queue length legitimately differ (bounded 3 vs unbounded) and are masked; their sum is compared"]},
     "C17": {"module": "StrettoModel.Props.C17", "jobs": [cache_job(r"\.(metrics|life|policy|ret)$", extra=["--w-clear", "4"]), policy_job(r"^pol\..*(metrics|state)$"),
                      {"name": "hist", "driver": "hist", "fields": r".*",
                       "gen": lambda tier, seed: ["hist", "--seed", str(seed), "--ops", "200" if tier == "quick" else "600", "--lives", "30" if tier == "quick" else "120"],
                       "seeds": {"quick": 1, "thorough": 6}}],
+            "oracles": [{"name": "live-invariants", "run": live_oracle("C17", ["invariants", "async_invariants"])}],
             "branches": ["h.update.first", "h.update.last", "h.update.inner", "h.update.on_bound", "h.clear", "get.hit", "get.miss", "getmut.hit", "getmut.miss", "get.closed", "insert.dropped", "padd.room", "padd.evicting", "padd.rejected", "padd.already_charged", "p.item.update", "delete.resident", "tick.reclaimed", "p.clear.buf1"],
             "assumptions": CACHE_ASSUME + ["the 256 stripes of each counter are summed into one u64 total in the model; every law is proved modulo 2^64 (equality whenever the true quantities fit)",
                                            "ratio() is f64 arithmetic on hits and misses and is compared on the implementation's own output, not proved; in the modelled code no admission is ever tracked (F14), so the cache never feeds the life-expectancy histogram: the histogram type itself (Histogram::new/update/clear/mean/percentile/Display, integer-valued bounds) is modelled, proved (count = sum of buckets, bucket of a sample) and tied by its own trace job through the public API",
@@ -190,6 +192,7 @@ PROPS = {
     "C01": {
         "module": "StrettoModel.Props.C01",
         "jobs": [policy_job(r"^pol\.(add|add\.state|remove|update|clear|maxcost|cost|cap)$")],
+        "oracles": [{"name": "live-invariants", "run": live_oracle("C01", ["invariants", "async_invariants"])}],
         "branches": POLICY_BRANCHES,
         "assumptions": [
             "i64 costs are modelled by unbounded Int under Dom: costs >= 0 and no i64 overflow of cost + item_size or of the running sum",
@@ -204,7 +207,7 @@ PROPS = {
         "assumptions": [
             "popularity estimates are an arbitrary function in the theorems; the implementation's values are observed inside the loop through the cfg-gated observer (estimates of every sample entry and of the newcomer)",
             "what fill_sample appends at each iteration is an oracle input (HashMap iteration order), checked against the guard validRefill by the driver",
-            "termination of the loop is not part of these theorems (the model loop is driven by the observed iterations)",
+            "termination of the loop is proved (loop_terminates) for refills that satisfy RefillsOk, the guard the driver checks on every observed iteration",
         ],
     },
     "C13": {
